@@ -59,3 +59,15 @@ Definition cand_tseq (fb : flat) (k : key) : tseq :=
 Definition key_accepted (fb : flat) (k : key) : bool :=
   match decode_key fb k with Some cand => accepts fb cand | None => false end.
 Definition accepted_keys (fb : flat) : list key := filter (key_accepted fb) (keys_of fb).
+
+(** the model's enumerator and key list are defined: no error value, in
+    particular no fuel exhaustion of the memoised counter / unranker for
+    permutations with copies (C13 relates that counter to the reference
+    recursion whenever it returns) *)
+Definition enumerates (fb : flat) : Prop :=
+  exists en ks, make_enumerator fb = ROk en /\ all_keys fb en = ROk ks.
+Definition enumerates_b (fb : flat) : bool :=
+  match make_enumerator fb with
+  | ROk en => match all_keys fb en with ROk _ => true | RErr _ => false end
+  | RErr _ => false
+  end.
